@@ -1,4 +1,11 @@
-(* C12 — property theorems (bootstrap stage; see DESIGN.md section 6). *)
-From Verif Require Import WriterSM.
-Definition C12_reset_clears_error := @reset_clears.
-Print Assumptions C12_reset_clears_error.
+(* C12 — property theorems.  Model: WModel/{LZ77,Codes,Encode,Compressor,WriterSM}.v — the pure-Go writer (acceleration level 0), compared byte for byte with the implementation on every run; the assembly levels are tied to it by the run-time contract checks (DESIGN.md 4.3).
+   Only statements, each closed by `exact`, followed by Print Assumptions. *)
+From Verif Require Import FinalSpec WriterTheorems WriterStateProofs TraceContent.
+Open Scope N_scope.
+
+(* whatever happened before (any operations, any destination fault, earlier Resets), Reset yields
+   exactly the state of a new writer with the same setting on the new destination: every later
+   observation is therefore that of a fresh writer *)
+Theorem C12_reset_is_new : reset_is_new_statement.
+Proof. exact WriterStateProofs.reset_is_new. Qed.
+Print Assumptions C12_reset_is_new.
